@@ -33,6 +33,22 @@ func mix(x uint64) uint64 {
 	return x ^ (x >> 31)
 }
 
+// OnBoot registers a function that re-creates a package-level object of the system under
+// test at the start of every simulated run (inserted by the instrumenter for channels,
+// timers, tickers, condition variables and contexts made by package initialisers: a freshly
+// started process would make them anew, and testing/synctest ties them to the bubble they
+// were made in).
+var bootHooks []func()
+
+func OnBoot(f func()) { bootHooks = append(bootHooks, f) }
+
+// RunBootHooks is called by the harness inside the bubble before the system starts.
+func RunBootHooks() {
+	for _, f := range bootHooks {
+		f()
+	}
+}
+
 // Hash derives a 64-bit value from a seed and a list of keys; the same inputs always
 // give the same output and nothing is consumed from any shared stream.
 func Hash(seed uint64, keys ...uint64) uint64 {
